@@ -22,7 +22,8 @@ MANIFEST = {
             '(as relays and as unsolicited responses), duplicate floods, random bytes. After every settle: no exception '
             'left the event loop or a manager step, chain state / head / pool / store rows equal the adversary-free '
             'expectation, every honest connection is still registered, greeted and parseable; at most the adversarial '
-            'connection was closed.',
+            'connection was closed.'
+            ' Also: a connection aborted while it waits in the accept queue; a rule-breaking block pushed as a response by one peer while another peer had been asked for it; blocks announced, requested and served with a wrong height.',
     'note': 'Frames are bounded (<= 64 KiB): CPU/memory exhaustion inputs are out of scope (no cost model). Well-formed '
             'responses nobody asked for (out of protocol order) carry rule-breaking blocks; blocks announced, requested and then '
             'served with a height that is not parent + 1 (in protocol order, structurally inconsistent) must be refused. '
